@@ -738,6 +738,19 @@ func (c *vfPoolCase) invariants(before, s *vfSnap, reorged bool, localBefore []b
 			for _, t := range l {
 				if before.where(t) == "pending" {
 					demoted++
+					continue
+				}
+				// ... or it replaced, in the queue, a transaction of the same nonce that was pending before
+				// and had just been demoted in the same operation (the pool was full, Discard evicted a
+				// cheaper lower nonce of this account, the higher one fell back to the queue and was then
+				// outbid): found by the thorough tier, seed 2
+				if before.where(t) == "unknown" {
+					for _, x := range before.pending[a] {
+						if x.nonce == t.nonce {
+							demoted++
+							break
+						}
+					}
 				}
 			}
 		}
